@@ -16,7 +16,9 @@ the pass in which they complain, and the EXPECT machine of asmerr.c with a count
     line behind the INCLUDE in the main file - so that the save / restore of the physical line counter per FILE tag
     (tag.startLine, st.momLine in MacroProc = StartLine, MomLineCounter in as.c) is exercised) and every EXPECT program (all announcements of
     <= 2 / 3 numbers x <= 2 / 3 occurring messages, nested / unclosed / stray / argument-less forms, EXPECT in a
-    macro) TLC checks PositionIsPlanted, NoCleanLineNamed, PositionsIdentify, ExpectExact, ExpectProtocol.
+    macro; family `expecthist`: histories message-before-block / block with met or unmet announcements / messages
+    between and after blocks / optional second block announcing the same or another number) TLC checks
+    PendingEmptyOutside (the pending list is explicit state, empty whenever no block is open), PositionIsPlanted, NoCleanLineNamed, PositionsIdentify, ExpectExact, ExpectProtocol.
     (MacroProc_MC of C11 additionally checks PosAgree for every statement of every program it explores.)
 (G) DiagPos_MC, Fixed = {} with Dump: the same jobs are printed with the messages the specification expects under
     6 reporting configurations (-x 0..2, -n, -gnuerrors, -E file / !1 / stderr); each is run through the real asl
@@ -65,9 +67,9 @@ def repaired_in_repo():
         except (OSError, ValueError):
             pass
     return "{" + ", ".join('"%s"' % d for d in sorted(out)) + "}"
-FAMILIES = ["main", "incl", "after", "expect"]
+FAMILIES = ["main", "incl", "after", "expect", "expecthist"]
 DIALECT = "68000"
-INVS = "PositionIsPlanted NoCleanLineNamed PositionsIdentify ExpectExact ExpectProtocol"
+INVS = "PositionIsPlanted NoCleanLineNamed PositionsIdentify ExpectExact ExpectProtocol PendingEmptyOutside"
 
 
 def _cfg(name, text):
@@ -304,6 +306,9 @@ faulty line ever followed a completed construct / a returned INCLUDE in the same
 on a copy of the current /repo:
   `Tag->StartLine = MomLineCounter` deleted (the seed)                    -> VIOLATION (after)   (ctest 201/201)
   INCLUDE_Restorer does not restore MomLineCounter                        -> VIOLATION           (ctest 201/201)
+Third round (seed missed: ENDEXPECT no longer emptied the list, an unmet announcement swallowed a later message
+outside any block) - invariant PendingEmptyOutside and family `expecthist` added; on a copy of the current /repo:
+  CodeENDEXPECT reports but keeps the list, CodeEXPECT clears it          -> VIOLATION (expecthist)  (ctest 201/201)
 The proposed fix of IRP_GetPos applied: 0 violations, no known finding hit (the as-coded prediction of the model
 equals the real output in all 576 affected runs before the fix, the declarative expectation after it).
 """
